@@ -7,6 +7,7 @@ import (
 	"net/url"
 	"reflect"
 	"sort"
+	"sync"
 	"time"
 	"unsafe"
 
@@ -89,6 +90,40 @@ type c12OCRACase struct {
 	Spare  [5]int   `json:"spare"`
 }
 
+// retained: canaried inputs of earlier calls, re-checked after later calls (a later call must not be able to
+// alter an earlier caller's buffers either)
+type retainedCanaries struct {
+	mu   sync.Mutex
+	keep [][5]*canary
+	desc []c12OCRACase
+}
+
+var c12Retained retainedCanaries
+
+func (rc *retainedCanaries) add(cs [5]*canary, k c12OCRACase) {
+	rc.mu.Lock()
+	if len(rc.keep) < 20000 {
+		rc.keep = append(rc.keep, cs)
+		rc.desc = append(rc.desc, k)
+	}
+	rc.mu.Unlock()
+}
+
+func (rc *retainedCanaries) recheck(c *Ctx, when string) {
+	rc.mu.Lock()
+	defer rc.mu.Unlock()
+	names := []string{"Counter", "Challenge", "Password", "SessionInfo", "Timestamp"}
+	for i, cs := range rc.keep {
+		for f, cn := range cs {
+			if ok, what := cn.intact(); !ok {
+				c.R.Violate("C12|later-call|earlier-input-modified|"+names[f], "an OCRA input field of an EARLIER call was modified by a later call ("+when+")", "c12ocra", rc.desc[i], "backing array unchanged", what)
+				cn.snap = append([]byte(nil), cn.backing...)
+			}
+		}
+	}
+	c.R.Count("retained_inputs_rechecked", len(rc.keep))
+}
+
 func judgeC12OCRA(c *Ctx, k c12OCRACase) {
 	r := c.R
 	in := k.Base.Input.ref()
@@ -158,6 +193,7 @@ func judgeC12OCRA(c *Ctx, k c12OCRACase) {
 		r.Eval(1)
 		check("ValidateOCRA")
 	}
+	c12Retained.add(cs, k)
 	if r.WantSample() {
 		r.Sample(map[string]any{"suite": k.Base.Suite, "field_lengths": []int{lenOrNil(in.Counter), lenOrNil(in.Challenge), lenOrNil(in.Password), lenOrNil(in.Session), lenOrNil(in.Timestamp)}, "shapes(0 len==cap,1 spare,2 subslice,3 nil)": k.Shapes, "spare": k.Spare})
 	}
@@ -424,6 +460,26 @@ func c12Aliasing(c *Ctx) {
 		})
 		r.Eval(11)
 	}
+	// hot secrets: decode the same text repeatedly, wipe every returned key (the caller owns it), and make sure
+	// the library still sees the right key afterwards
+	for i := 0; i < c.N(3000, 30000); i++ {
+		key := []byte(fmt.Sprintf("hot-secret-%02d-padding", i%16))
+		sec := ref.Base32Encode(key)
+		monCatch(func() {
+			b, err := otp.DecodeSecret(sec)
+			if err != nil || hexs(b) != hexs(key) {
+				r.Violate("C12|DecodeSecret|result-shared|", "decoding a secret again after an earlier result was wiped by its owner returns different bytes", "none", sec, hexs(key), fmt.Sprintf("%x err=%v", b, err))
+			}
+			for j := range b {
+				b[j] = 0
+			}
+			got, gerr := otp.GenerateHOTP(sec, uint64(i), nil)
+			if want := ref.HOTP(key, uint64(i), 6, ref.SHA1); gerr != nil || got != want {
+				r.Violate("C12|DecodeSecret|result-shared|", "a key returned by DecodeSecret shares memory with library state: wiping it changes later results", "none", sec, want, fmt.Sprintf("%q err=%v", got, gerr))
+			}
+		})
+		r.Eval(2)
+	}
 	all := append(append([]addrRange{}, ranges...), args...)
 	sort.Slice(all, func(i, j int) bool { return all[i].lo < all[j].lo })
 	for i := 1; i < len(all); i++ {
@@ -514,7 +570,14 @@ func c12Main(c *Ctx) {
 	nb := 8
 	for b := 0; b < nb; b++ {
 		lo, hi := b*len(cases)/nb, (b+1)*len(cases)/nb
-		parallelJudge(c, cases[lo:hi], judgeC12OCRA)
+		if b%2 == 0 {
+			parallelJudge(c, cases[lo:hi], judgeC12OCRA)
+		} else {
+			for _, k := range cases[lo:hi] { // a sequential history on one goroutine
+				judgeC12OCRA(c, k)
+			}
+		}
+		c12Retained.recheck(c, fmt.Sprintf("after OCRA batch %d", b))
 		comparePkg(c, st, fmt.Sprintf("after OCRA batch %d", b))
 	}
 	c12Params(c)
